@@ -199,6 +199,8 @@ def make_quad_mesh(points, size_u, size_v, **kwargs):
     vertices = []
     for pt in points:
         vrt = Vertex(*pt, id=vertex_idx)
+        # Parametric position of the vertex (input points are v-ordered)
+        vrt.uv = [float(vertex_idx // size_v) / float(size_u - 1), float(vertex_idx % size_v) / float(size_v - 1)]
         vertices.append(vrt)
         vertex_idx += 1
 
